@@ -67,6 +67,10 @@ extern int mpt_path_addchar(MPT_STRUCT(path) *path, int val)
 			return 1;
 		}
 	}
+	/* pending character is replaced on foreign storage too */
+	if ((pos < off) && !(path->flags & MPT_PATHFLAG(KeepPost))) {
+		--off;
+	}
 	/* extend storage */
 	arr._buf = b;
 	if (!(dest = mpt_array_slice(&arr, off, 1))) {
